@@ -24,7 +24,7 @@ NB = st.lists(st.lists(st.integers(0, 7), min_size=0, max_size=4, unique=True), 
 
 
 def strategy(tier):
-    return st.tuples(gen.tiered(tier, max_ops=10, rejects=False, kinds=KINDS, removal=(True, True, True, False), horizon=6), NB).map(
+    return st.tuples(gen.tiered(tier, max_ops=10, rejects=False, kinds=KINDS, removal=(True, True, True, False), horizon=6, shifts=True), NB).map(
         lambda x: dict(x[0], nb=x[1]))
 
 
